@@ -94,8 +94,10 @@ def gen_size_history(rng, tier, with_trigger=True, with_append=True, namings=Non
             ops.append("P:" + hx(bytes([65 + i % 26]) * sizes_around(rng, lim)))
         elif r < 0.88:
             ops.append("F")
-        elif r < 0.95 and with_trigger:
+        elif r < 0.92 and with_trigger:
             ops.append("T")
+        elif r < 0.95 and with_trigger:
+            ops.append("R")      # reopen_output with the file in place: the size accounting must go on unchanged
         elif allow_ticks and crit.startswith("s"):
             ops.append("K:%d" % rng.choice([1, 1, 2, 61]))
         if rng.random() < 0.1:
